@@ -88,7 +88,14 @@ pub(crate) struct GitSyncServer {
     cryptor: Cryptor,
     /// Minimum age a version file must reach before cleanup() will remove it.
     version_retention: Duration,
+    /// Set while [`UNFINISHED_REF`] may exist. If it is still set when the next call begins,
+    /// a step of the rollback failed, and the rollback is done then.
+    needs_recovery: bool,
 }
+
+/// While add_version has made a commit that is neither pushed nor rolled back yet, this ref
+/// points at the commit add_version started from.
+const UNFINISHED_REF: &str = "refs/taskchampion/unfinished";
 
 /// Load and deserialise a [`Meta`] from the given path.
 fn load_meta(path: &Path) -> Result<Meta> {
@@ -202,6 +209,20 @@ impl Git {
         self.clean_stray_files(dir)
     }
 
+    /// If an add_version was left unfinished (the process stopped, or a step of its rollback
+    /// failed), go back to the commit it started from. A commit that was made but not pushed
+    /// was never accepted by the remote, so it must not stay visible to this clone's readers.
+    /// Returns `true` if there was something to roll back.
+    fn rollback_unfinished(&self, dir: &Path) -> Result<bool> {
+        if !self.cmd_ok(dir, &["rev-parse", "--verify", "--quiet", UNFINISHED_REF])? {
+            return Ok(false);
+        }
+        self.cmd(dir, &["reset", "--hard", UNFINISHED_REF])?;
+        self.clean_stray_files(dir)?;
+        self.cmd(dir, &["update-ref", "-d", UNFINISHED_REF])?;
+        Ok(true)
+    }
+
     /// Return how long ago `filename` was last committed in `dir`, or `None` if git has no
     /// record of it. A missing record is treated as "keep".
     fn version_file_age(&self, dir: &Path, filename: &str) -> Result<Option<Duration>> {
@@ -246,8 +267,27 @@ impl GitSyncServer {
             local_only,
             cryptor,
             version_retention: VERSION_RETENTION,
+            needs_recovery: false,
         };
         Ok(server)
+    }
+
+    /// Complete a rollback that add_version could not complete.
+    fn recover(&mut self) -> Result<()> {
+        if self.needs_recovery {
+            self.git.rollback_unfinished(&self.local_path)?;
+            self.read_meta()?;
+            self.needs_recovery = false;
+        }
+        Ok(())
+    }
+
+    /// The write begun by add_version has been pushed or rolled back.
+    fn finish_write(&mut self) -> Result<()> {
+        self.git
+            .cmd(&self.local_path, &["update-ref", "-d", UNFINISHED_REF])?;
+        self.needs_recovery = false;
+        Ok(())
     }
 
     /// Initialise or open the git repository and return the current [`Meta`].
@@ -310,6 +350,7 @@ impl GitSyncServer {
         // Discard uncommitted changes left behind by an interrupted write, so that the meta
         // file read below is the committed one.
         if is_repo {
+            git.rollback_unfinished(local_path)?;
             git.discard_uncommitted(local_path)?;
         }
 
@@ -670,6 +711,7 @@ impl Server for GitSyncServer {
         parent_version_id: VersionId,
         history_segment: HistorySegment,
     ) -> Result<(AddVersionResult, SnapshotUrgency)> {
+        self.recover()?;
         // Accept any parent when the repo is empty (latest == NIL).
         // Otherwise check if parent matches latest. If it doesn't, reset_to_remote and recheck.
         if self.meta.latest_version != Uuid::nil() && parent_version_id != self.meta.latest_version
@@ -695,7 +737,12 @@ impl Server for GitSyncServer {
         // from: uncommitted changes would leave the meta file naming a version that does not
         // exist, and a commit that was made but not pushed would go on being served to this
         // clone's readers although the remote, and so every other replica, never accepted it.
+        // The starting point is also recorded in the repository, so that the same happens when
+        // the repository is next opened if the process stops before this is through.
         let head = self.git.output(&self.local_path, &["rev-parse", "HEAD"])?;
+        self.git
+            .cmd(&self.local_path, &["update-ref", UNFINISHED_REF, &head])?;
+        self.needs_recovery = true;
         let pushed = match self
             .write_and_commit_version(&version)
             .and_then(|()| self.push())
@@ -706,6 +753,7 @@ impl Server for GitSyncServer {
                     .cmd_ok(&self.local_path, &["reset", "--hard", &head])?;
                 self.git.clean_stray_files(&self.local_path)?;
                 self.read_meta()?;
+                self.finish_write()?;
                 return Err(e);
             }
         };
@@ -717,12 +765,14 @@ impl Server for GitSyncServer {
                 .cmd(&self.local_path, &["reset", "HEAD~1", "--soft"])?;
             self.reset_to_remote()?;
             self.read_meta()?;
+            self.finish_write()?;
             return Ok((
                 AddVersionResult::ExpectedParentVersion(self.meta.latest_version),
                 SnapshotUrgency::None,
             ));
         }
 
+        self.finish_write()?;
         Ok((AddVersionResult::Ok(version_id), self.snapshot_urgency()))
     }
 
@@ -730,6 +780,7 @@ impl Server for GitSyncServer {
         &mut self,
         parent_version_id: VersionId,
     ) -> Result<GetVersionResult> {
+        self.recover()?;
         if let Some(v) = self.get_version_by_parent_version_id(&parent_version_id)? {
             return Ok(GetVersionResult::Version {
                 version_id: v.version_id,
@@ -750,6 +801,7 @@ impl Server for GitSyncServer {
     }
 
     async fn add_snapshot(&mut self, version_id: VersionId, snapshot: Snapshot) -> Result<()> {
+        self.recover()?;
         self.reset_to_remote()?;
         // Write the snapshot to a file.
         // If another replica has pushed a snapshot for a later version in the chain between
@@ -791,6 +843,7 @@ impl Server for GitSyncServer {
     }
 
     async fn get_snapshot(&mut self) -> Result<Option<(VersionId, Snapshot)>> {
+        self.recover()?;
         self.reset_to_remote()?;
 
         let snapshot_path = self.local_path.join("snapshot");
